@@ -142,6 +142,9 @@ func (c *Case) pull(it *xpath.NodeIterator, d *xdoc.Doc, k, extra int) (digest s
 }
 
 func c04History(c *Case) {
+	if !c.Canary(200) {
+		return
+	}
 	g := c.G()
 	docs := c.docPool("docs", 8, func(dg *xgen.G) *xdoc.Doc {
 		if dg.Chance(0.3) {
